@@ -300,7 +300,7 @@ func (e *Exec) merge(states []*State) *State {
 			if !ok {
 				if iv, ok2 := e.init0[e.initKey(s, k)]; ok2 {
 					v = iv
-				} else if isHeapKey(k) {
+				} else if isHeapKey(k) || isGlobalKey(k) {
 					// materialise the (epoch-specific) initial value using the type seen on another branch
 					var ty *Type
 					for _, o := range live {
@@ -1143,4 +1143,10 @@ func (e *Exec) loopFrameCheck(head, after *State, fr *Frame, ord int, pos string
 		return
 	}
 	e.checkFrameAgainst(mods, head, []*State{after}, fr, fmt.Sprintf("loop%d-frame", ord), pos)
+}
+
+// isGlobalKey: ghost variables and the verifier's own global state (time, allocation, held locks): like heap keys they
+// exist in every state, so a branch that did not touch them still has their (initial) value at a join.
+func isGlobalKey(k string) bool {
+	return strings.HasPrefix(k, "GV!") || k == "$now" || k == "$alloc" || strings.HasPrefix(k, "$held!")
 }
